@@ -7,6 +7,7 @@ import (
 	"syscall"
 	"time"
 
+	"github.com/criyle/go-sandbox/pkg/unixsocket"
 	"github.com/criyle/go-sandbox/runner"
 )
 
@@ -28,3 +29,15 @@ func ConvertReplyVerif(ws syscall.WaitStatus, ru syscall.Rusage, waitErr string,
 	now := time.Now()
 	return convertReplyResult(rep, now, now, err)
 }
+
+// FramedVerif is the gob-framed socket of the container protocol.
+type FramedVerif struct{ s *socket }
+
+// NewFramedVerif wraps a unix socket like both endpoints of the protocol do.
+func NewFramedVerif(s *unixsocket.Socket) *FramedVerif { return &FramedVerif{newSocket(s)} }
+
+// SendMsg sends one gob value with attachments.
+func (f *FramedVerif) SendMsg(e any, m unixsocket.Msg) error { return f.s.SendMsg(e, m) }
+
+// RecvMsg receives one gob value with attachments.
+func (f *FramedVerif) RecvMsg(e any) (unixsocket.Msg, error) { return f.s.RecvMsg(e) }
